@@ -31,6 +31,8 @@ DBLOCKS = [
     ("[a]: /d1", 1, [(0, 1)]), ("[A]: /d2 \"t\"", 1, [(0, 1)]), ("> [b]: /d3", 1, [(0, 1)]),
     ("- [a]: /d4", 1, [(0, 1)]), ("[É]: /d5 '\nmulti\nline'", 1, [(0, 3)]), ("[a\n b]:\n/d6", 1, [(0, 3)]),
     ("[b]: /d7\n[ss]: /d8", 2, [(0, 1), (1, 1)]), ("para\n[a]: /not-a-definition", 0, []),
+    # a title whose first line ends in a backslash (a literal backslash followed by the line break)
+    ("[É]: /d9 \"x\\\ny\"", 1, [(0, 2)]), ("[t]: /d10 'p\\\nq\\\nr'\n[b]: /d11", 2, [(0, 3), (3, 1)]),
 ]
 RDEFS = ["[a]: /r1", "[A]: /r2 'T'", "[ a  b]: /r3", "[ß]: /r4", "[SS]: /r5", "[é]: /r6", "[b]: </r 7> (t)"]
 
@@ -212,7 +214,8 @@ def sub_ws(md, acc):
 # ---- (3) reference form vs inline form ---------------------------------------------------------------------
 DEST = ["u", "/a b", "<a b>", "a(b)", "a\\)b", "&amp;", "%20", "é", "<>", "a\\*b", "a&#42;b", "javascript:x", "#f", "?q=1&r",
         "a\"b", "<a\\>b>", ""]
-TITLE = [None, '"t"', "'t'", "(t)", '"a\\"b"', '"&amp;"', '"a\nb"', '"é<>"', "'it\\'s'", '""', '"(x)"', "(a\\)b)"]
+TITLE = [None, '"t"', "'t'", "(t)", '"a\\"b"', '"&amp;"', '"a\nb"', '"é<>"', "'it\\'s'", '""', '"(x)"', "(a\\)b)",
+         '"a\\\nb"', "'a\\\n\\\nb'"]
 TEXT = ["x", "*x*", "`c`", "a\\]b", "![i](j)", "&amp;", "[y]"]
 
 
@@ -248,6 +251,39 @@ def sub_forms(md, ci, text, dest, title, acc):
     return None, None, None
 
 
+# ---- (4) a reference link does not depend on what follows it -------------------------------------------------
+TAILS = ["", " z", "(", "()x", "(/x", "(/x \"stale\" y)", "(/x 'stale' y)", "(/x (stale) y)", "(<x> \"s\"", "(/x \"s\"", "[", "[]x", "[nope]",
+         "[ ](", "(\n/x \"s\" y)", ": /x"]
+REFDEFS4 = ["[foo]: /real", "[foo]: /real 'T'", "[foo]: </re al> \"T\""]
+
+
+def sub_tail(md, kind, tail, rd, acc):
+    bang = "!" if kind == "image" else ""
+    base = f"{bang}[foo]\n\n{rd}\n"
+    src = f"{bang}[foo]{tail}\n\n{rd}\n"
+    a = acc.call(md.parse, base)
+    b = acc.call(md.parse, src)
+    if a is CRASH or b is CRASH:
+        return None
+    want = "link_open" if kind == "link" else "image"
+
+    def first(toks):
+        for t in toks:
+            for c in t.children or []:
+                if c.type == want:
+                    return c
+        return None
+
+    fa, fb = first(a), first(b)
+    if fa is None or fb is None:
+        return None  # the tail legitimately turned it into something else (e.g. an inline link or a full reference)
+    # when it still is the link to the definition's destination it must carry the definition's title too
+    if fb.attrs.get("href" if kind == "link" else "src") == fa.attrs.get("href" if kind == "link" else "src") and fb.attrs != fa.attrs:
+        return f"{kind}: attrs {fb.attrs} of the reference followed by {tail!r} differ from the reference alone {fa.attrs}"
+    acc.sig(("tail", kind, tail, rd))
+    return None
+
+
 # ---- driver --------------------------------------------------------------------------------------------------
 def bounds(tier):
     th = tier == "thorough"
@@ -274,6 +310,7 @@ def shards(tier):
     for ci in range(len(CFGS)):
         for ti in range(len(TEXT)):
             sh.append(("forms", ci, ti))
+    sh.append(("tail",))
     return sh
 
 
@@ -323,6 +360,17 @@ def run_shard(sh, acc):
         md = C.build(CFGS[0])
         sub_ws(md, acc)
         acc.sample("label-ws", {"src": "[a\t \tb]\n\n[a b]: /u\n"}, 1)
+    elif kind == "tail":
+        for c in CFGS:
+            md = C.build(c)
+            for k in ("link", "image"):
+                for tail in TAILS:
+                    for rd in REFDEFS4:
+                        acc.case()
+                        r = sub_tail(md, k, tail, rd, acc)
+                        if r:
+                            acc.violation("tail", "a reference link depends on the text that follows it", {"cfg": c, "kind": k, "tail": tail, "rd": rd}, r)
+        acc.sample("tail", {"src": "[foo](/x \"stale\" y)\n\n[foo]: /real\n"}, 1)
     elif kind == "forms":
         _, ci, ti = sh
         md = C.build(CFGS[ci])
@@ -358,6 +406,11 @@ def check_case(case, acc):
         h = md.render(case["src"])
         if '<a href="/u">' not in h:
             acc.violation(sub, "label with a different blank-run spelling does not match", {"src": case["src"]}, "does not resolve")
+    elif sub == "tail":
+        md = C.build(case["cfg"], fresh=True)
+        r = sub_tail(md, case["kind"], case["tail"], case["rd"], acc)
+        if r:
+            acc.violation("tail", "a reference link depends on the text that follows it", {k: case[k] for k in ("cfg", "kind", "tail", "rd")}, r)
     elif sub == "forms":
         md = C.build(case["cfg"], fresh=True)
         r, inl, ref = sub_forms(md, 0, case["text"], case["dest"], case["title"], acc)
